@@ -299,6 +299,7 @@ func runWaitScenario(o *out, r *rng, idx int) {
 	}
 	must(sub.VerifInit(ctx))
 	sub.VerifPeerSeen(net.srvHost.ID())
+	discoveries := sub.VerifDiscoveries(16)
 	pr := logging.NewPipeReader(logging.PipeFormat(logging.JSONOutput), logging.PipeLevel(logging.LevelDebug))
 	defer pr.Close()
 	_ = logging.SetLogLevel("f3/certexchange", "debug")
@@ -388,11 +389,35 @@ func runWaitScenario(o *out, r *rng, idx int) {
 	prev := l1.waiting
 	for k := 1; k <= 3; k++ {
 		time.Sleep(60 * time.Millisecond) // the loop logs just before it re-arms its timer
-		mock.Add(prev)                    // exactly when the timer is due
+		if k == 2 && prev > 2 {
+			// half-way through the wait a peer is discovered (the server's own id again: nothing new to poll): the pending
+			// poll must still happen when it was due -- the wait is extended by the own requests' time only
+			mock.Add(prev / 2)
+			discoveries <- net.srvHost.ID()
+			time.Sleep(60 * time.Millisecond)
+			mock.Add(prev - prev/2)
+			if !waitReq() {
+				// not due yet?  let the full wait pass once more: if the request shows up now, the discovery had postponed the poll
+				mock.Add(prev)
+				if waitReq() {
+					o.violate("the wait before the next poll is the predicted interval, extended only by the time its own requests took", "subscriber-wait-extended-by-discovery", in,
+						fmt.Sprintf("round %d: the poll was due %s after the previous one; a peer was discovered half-way and the poll only happened after a further full wait", k+1, prev))
+					answers <- resp{pending: uint64(k + 1), certs: []*certs.FinalityCertificate{cs[k]}}
+					_, _ = waitLine()
+				} else {
+					o.Dist["wait-scenario-inconclusive-discovery"]++
+				}
+				return
+			}
+			o.Dist["wait-scenario-discovery-mid-wait"]++
+			goto arrived
+		}
+		mock.Add(prev) // exactly when the timer is due
 		if !waitReq() {
 			o.Dist[fmt.Sprintf("wait-scenario-inconclusive-round%d", k+1)]++
 			return
 		}
+	arrived:
 		answers <- resp{pending: uint64(k + 1), certs: []*certs.FinalityCertificate{cs[k]}}
 		lk, ok := waitLine()
 		if !ok {
